@@ -284,7 +284,12 @@ func (w *c10World) build(r *core.Rng, fault, policy string, yr int) c10Case {
 	}
 	// initial state of every designated path
 	for _, f := range w.files {
-		st := core.Pick(r, []string{"absent", "absent", "absent", "old", "old", "old", "user", "dir", "full"})
+		st := core.Pick(r, []string{"absent", "absent", "absent", "old", "old", "old", "user", "dir", "full", "link"})
+		if st == "link" && cs.Force[f.path] {
+			// writing through a link the user put at an overwritable output path is the user's
+			// business; only the protected case is judged
+			st = "old"
+		}
 		cs.Init[f.path] = st
 		switch st {
 		case "old":
@@ -293,6 +298,15 @@ func (w *c10World) build(r *core.Rng, fault, policy string, yr int) c10Case {
 			p.Aux[f.path] = "package mocks\n\n// hand-written file that happens to live at the output path\nvar UserValue = 42\n"
 		case "dir":
 			p.Aux[f.path+"/keep.txt"] = "a directory occupies the output path\n"
+		case "link":
+			// a symbolic link to a user's file elsewhere in the tree occupies the (protected) path:
+			// something is there, and neither the link nor the file behind it may change
+			tgt := fmt.Sprintf("userfiles/linked_%d.go", len(p.Links))
+			p.Aux[tgt] = "package userfiles\n\n// a user's file that the output path links to\nvar Linked = true\n"
+			if p.Links == nil {
+				p.Links = map[string]string{}
+			}
+			p.Links[f.path] = world.RootPlaceholder + "/" + tgt
 		case "full":
 			// the device behind this path is full: it opens, and every write fails with ENOSPC
 			if p.Links == nil {
